@@ -1534,6 +1534,11 @@ class Backend:
     def get_custom_target_provided_libraries(self, target: T.Union[build.BuildTarget, build.CustomTarget]) -> 'ImmutableListProtocol[str]':
         libs: T.List[str] = []
         for t in target.get_generated_sources():
+            if isinstance(t, build.CustomTargetIndex):
+                # One output of a custom target given as a source
+                if compilers.is_library(t.get_filename()):
+                    libs.append(os.path.join(self.get_target_dir(t), t.get_filename()))
+                continue
             if not isinstance(t, build.CustomTarget):
                 continue
             libs.extend(self.get_custom_target_provided_by_generated_source(t))
